@@ -28,8 +28,8 @@ def gen(run):
 
 
 fam.make(globals(), "C01", ["C01", "C01r"], gen)
-COQ_TARGETS = ["theories/Props/C01.vo", "theories/Props/C01a.vo"]
-COQCHK = ["MS.Props.C01", "MS.Props.C01a"]
+COQ_TARGETS = ["theories/Props/C01.vo", "theories/Props/C01a.vo", "theories/Props/C01s.vo"]
+COQCHK = ["MS.Props.C01", "MS.Props.C01a", "MS.Props.C01s"]
 REQUIRES = ["From Coq Require Import List NArith ZArith Bool.", "From Coq.Strings Require Import Byte.",
             "From MS Require Import Base.Bytes Base.Outcome Base.Prog Mp4.Header Mp4.Box Mp4.San Mp4.Spec Mp4.ShiftSpec Mp4.SpliceSpec Props.C01 Props.C01a.",
             "Import ListNotations.", "Open Scope N_scope."]
@@ -115,6 +115,24 @@ THEOREMS = [
        new e + k < ilen J /\\ iget J (new e + k) = iget inp (e + k)) /\\
     mp4_sanitize cfg lenient2 U64MAX' J fuel2 = Ok {| o_metadata := None; o_data := {| s_off := blen md + pad; s_len := len |} |}"""),
 ]
+_SREQ = ["From Coq Require Import List NArith ZArith Bool.", "From Coq.Strings Require Import Byte.",
+         "From MS Require Import Base.Bytes Base.Outcome Mp4.Header Mp4.Box Gen.Mp4ShiftSites Mp4.ShiftSitesProofs Props.C01s.",
+         "Import ListNotations.", "Open Scope N_scope."]
+# which kernel rewrites which table, regenerated from the two rewrite loops of the source (Gen/Mp4ShiftSites.v; Props/C01s.v)
+THEOREMS = THEOREMS + [
+    ("C01_table_entry_sizes_are_source", """forall (A : Type) (kids : list node) (g : node -> res (node * A)),
+  stbl_co kids g =
+  (let have_stco := existsb (node_is t_stco) kids in
+   let have_co64 := existsb (node_is t_co64) kids in
+   if have_stco && have_co64 then EParse InvalidBoxLayout
+   else if have_stco then with_one t_stco kids (fun n => n' <- force_table (entry_bytes_src t_stco) n ;; g n')
+   else with_one t_co64 kids (fun n => n' <- force_table (entry_bytes_src t_co64) n ;; g n'))"""),
+    ("C01_shift_kernel_widths_are_source", """forall (f32 f64 : N -> res N) (h : header) (w c : N) (e : bytes),
+  shift_table f32 f64 (Tab h w c e) =
+  (e' <- map_entries (S (length e)) (N.to_nat w) (if w =? entry_bytes_src t_stco then f32 else f64) e ;; Ok (Tab h w c e', tt))"""),
+    ("C01_shift_sites", "SHIFT_SITES_SRC = [(t_stco, 32); (t_co64, 64)] /\\ DISPLACEMENT_BITS_SRC = 32"),
+]
+REQUIRES_FOR = {"C01_table_entry_sizes_are_source": _SREQ, "C01_shift_kernel_widths_are_source": _SREQ, "C01_shift_sites": _SREQ}
 TRUSTED = fam.TRUSTED_COMMON + [
     "Base/AddSignedProofs.v (C20): the regenerated kernel checked_add_signed equals exact integer addition with range check",
     "Mp4/ShiftSpec.v: shift_all / shifted_by, the specification-side reading of `every entry becomes e + delta exactly`",
